@@ -40,7 +40,7 @@ func checkC02(c *Ctx) error {
 		for _, r := range e.Returns {
 			v, m := q(r.X, "(not (= "+r.Ev.Ret+" "+ref.Result+"))")
 			if v == smt.Sat {
-				ic.report(map[string]string{"kind": "result-differs", "return-site": r.Ev.Site}, m, "result")
+				ic.report(map[string]string{"kind": "result-differs", "return-site": r.Ev.Site, "_expect_result": nativeID(ref.Result)}, m, "result")
 			} else if v == smt.Unknown {
 				c.Inconclusive("result query unknown for " + ic.Name())
 			}
@@ -53,7 +53,7 @@ func checkC02(c *Ctx) error {
 		for _, p := range ref.Unneeded {
 			for _, i := range byProv[p] {
 				if v, m := q(e.Enters[i].X); v == smt.Sat {
-					ic.report(map[string]string{"kind": "unneeded-provider-invoked"}, m, "unneeded-"+p)
+					ic.report(map[string]string{"kind": "unneeded-provider-invoked", "_prov": p}, m, "unneeded-"+p)
 				}
 			}
 		}
@@ -73,14 +73,14 @@ func checkC02(c *Ctx) error {
 					continue
 				}
 				if v, m := q(r.X, smt.Not(smt.Or(occ...))); v == smt.Sat {
-					ic.report(map[string]string{"kind": "needed-provider-skipped"}, m, "skipped-"+p)
+					ic.report(map[string]string{"kind": "needed-provider-skipped", "_prov": p}, m, "skipped-"+p)
 				}
 			}
 			// at most once
 			for a := 0; a < len(idx); a++ {
 				for b := a + 1; b < len(idx); b++ {
 					if v, m := q(e.Enters[idx[a]].X, e.Enters[idx[b]].X); v == smt.Sat {
-						ic.report(map[string]string{"kind": "provider-invoked-twice"}, m, "twice-"+p)
+						ic.report(map[string]string{"kind": "provider-invoked-twice", "_prov": p}, m, "twice-"+p)
 					}
 				}
 			}
@@ -102,7 +102,7 @@ func checkC02(c *Ctx) error {
 					continue
 				}
 				if v, m := q(en.X, smt.Or(ne...)); v == smt.Sat {
-					ic.report(map[string]string{"kind": "argument-differs", "thread": threadKind(en.Thread)}, m, "arg-"+p)
+					ic.report(map[string]string{"kind": "argument-differs", "thread": threadKind(en.Thread), "_prov": p, "_expect_args": nativeArgs(wantArgs)}, m, "arg-"+p)
 				} else if v == smt.Unknown {
 					c.Inconclusive("argument query unknown for " + ic.Name())
 				}
